@@ -8,10 +8,10 @@
    the BCL walker's reflection mechanics are explored by the correspondence streams, not modelled. *)
 From Coq Require Import String List NArith ZArith Bool Arith.
 From J5V.lib Require Import Text Outcome.
-From J5V.gen Require SetExtGen PanicGen WalkerGen SourcewalkGen.
+From J5V.gen Require SetExtGen PanicGen WalkerGen SourcewalkGen WalkSchemaGen.
 From J5V.model Require Import Entity.
-From J5V.model Require Import BclLexer BclParser CmpbFields CmpbDecls CmpbFront CmpbWalker CmpbPackage CmpbEntity.
-From J5V.proofs Require Import BclPosProofs BclBytesProofs CmpbFieldsProofs CmpbPanicProofs CmpbDeclsProofs CmpbSchemaProofs CmpbFrontProofs CmpbPackageProofs CmpbEntityProofs.
+From J5V.model Require Import BclLexer BclParser CmpbFields CmpbDecls CmpbFront CmpbWalker CmpbPackage CmpbEntity CmpbWalk CmpbWalkFile.
+From J5V.proofs Require Import BclPosProofs BclBytesProofs CmpbFieldsProofs CmpbPanicProofs CmpbDeclsProofs CmpbSchemaProofs CmpbFrontProofs CmpbPackageProofs CmpbEntityProofs CmpbWalkProofs.
 Import ListNotations.
 Local Open Scope string_scope.
 
@@ -414,3 +414,80 @@ Example C07_example_entity :
      | _ => False
      end.
 Proof. cbv zeta. vm_compute. repeat split. Qed.
+
+(* ==================================================================================================
+   The first sentence with the REAL walker's model in place of the abstract [walk] (round 3).
+   model/CmpbWalk.v is the schema-directed BCL walker (c2.go, walk_context.go, walker/schema/*, the part of
+   lib/j5reflect it drives) run over two tables regenerated from /repo (gen/WalkSchemaGen.v: j5parse.J5SchemaSpec and
+   the j5schema closure of j5.sourcedef.v1.SourceFile); model/CmpbWalkFile.v adds validateFile and reads the filled
+   file as the converter model's located declarations.  [j5s_walk R] is a FUNCTION of the syntax tree: the location
+   tree, the declarations and every error position are computed from the input (tie: stream "walk", the whole
+   location tree, kinds and sizes of the declarations and the error positions of every front-end text compared in Coq).
+   R = how a type reference resolves in the file's package (the only thing the file alone does not determine).
+   ================================================================================================== *)
+
+(* the parser never hands the walker a block without a type (parser.NewReference panics on it: C11's Panic site),
+   which is the one panic of the walker on a syntax tree (BuildScope -> TailScope -> nil root block) *)
+Theorem C07_parser_block_types_nonempty : forall ff data p body,
+  parse_runes ff data = Ok p -> ptree p = Some body -> body_refs_ok body = true.
+Proof. exact parse_runes_refs_ok. Qed.
+Print Assumptions C07_parser_block_types_nonempty.
+
+(* walker_returns for the instance: on every syntax tree of the parser the walker returns a file or positioned
+   errors, or says "outside the model" (maps of containers, non-ASCII map keys, > 300-rune float literals, a oneof
+   with two members set, the EntityObject name pattern: model/CmpbWalk.v header) *)
+Theorem C07_walker_returns : forall R body, body_refs_ok body = true ->
+  (exists w, j5s_walk R body = Ok w) \/ j5s_walk R body = Err E_UNMODELLED.
+Proof. exact j5s_walk_returns. Qed.
+Print Assumptions C07_walker_returns.
+
+(* walker_contract for the instance: every span of the location tree and every reported position has both ends
+   among the end points of the syntax tree's nodes (or the origin); error lists are not empty; every declaration's
+   properties / methods lie below the declaration's node *)
+Theorem C07_walker_contract : forall R body w, j5s_walk R body = Ok w -> walk_out_ok' body w = true.
+Proof. exact j5s_walk_contract. Qed.
+Print Assumptions C07_walker_contract.
+
+(* totality of the front end, for EVERY byte string and both parser modes, no hypothesis *)
+Theorem C07_front_end_total_j5s : forall R ff input,
+  (exists out, front_end (j5s_walk R) ff input = Ok out) \/ front_end (j5s_walk R) ff input = Err E_UNMODELLED.
+Proof. exact j5s_front_end_total. Qed.
+Print Assumptions C07_front_end_total_j5s.
+
+Theorem C07_front_end_errors_inside_file_j5s : forall R ff input st es,
+  front_end (j5s_walk R) ff input = Ok (FEErrors st es) ->
+  es <> [] /\ Forall (fun sp => inside_bytes input (fst sp) /\ inside_bytes input (snd sp)) es.
+Proof.
+  intros R ff input st es H. split; [exact (proj1 (j5s_front_end_errors_positioned R ff input st es H))|
+                                     exact (j5s_front_end_errors_inside_bytes R ff input st es H)].
+Qed.
+Print Assumptions C07_front_end_errors_inside_file_j5s.
+
+(* "for any source text ... descriptors or errors that carry a position inside the file; never panics or hangs",
+   one file, closed: no walker hypothesis is left *)
+Definition C07_front_end_statement_j5s : Prop := forall R, j5s_front_end_statement R.
+Theorem C07_front_end_j5s : C07_front_end_statement_j5s.
+Proof. exact j5s_front_end_statement_holds. Qed.
+Print Assumptions C07_front_end_j5s.
+
+(* non-vacuity, on j5s TEXT: an object with two fields and an enum is converted (two declarations, two properties);
+   an unknown type is a walker error at the type tag; an integer without format is a protovalidate violation at the
+   field; `objec` is an error at the block type; garbage is a parser diagnostic *)
+Definition c07_src (l : list string) : list N := runes_of_string (String.concat (String (Ascii.ascii_of_nat 10) "") l).
+Example C07_example_front_end_j5s :
+  let R := resolve_none in
+  front_end (j5s_walk R) true (c07_src ["package foo.v1"; ""; "object Foo {"; "  field name string"; "  field n ! integer:INT32"; "}"; ""; "enum Kind {"; "  option A"; "  option B"; "}"; ""])
+    = Ok (FEConverted VOk
+           [LObject ["elements"; "0"; "object"; "object"] false
+              [mkLP (mkProp false (Plain (TString false false)) false false)
+                    ["elements"; "0"; "object"; "object"; "def"; "properties"; "0"]
+                    ["elements"; "0"; "object"; "object"; "def"; "properties"; "0"; "schema"; "string"; "ref"];
+               mkLP (mkProp false (Plain (TInteger I32 None false)) true false)
+                    ["elements"; "0"; "object"; "object"; "def"; "properties"; "1"]
+                    ["elements"; "0"; "object"; "object"; "def"; "properties"; "1"; "schema"; "integer"; "ref"]];
+            LEnum ["elements"; "1"; "enum"] (mkEnum false [false; false])])
+  /\ front_end (j5s_walk R) true (c07_src ["object Foo {"; "  field name strin"; "}"; ""]) = Ok (FEErrors SWalk [((1, 13)%Z, (1, 17)%Z)])
+  /\ front_end (j5s_walk R) true (c07_src ["object Foo {"; "  field n integer"; "}"; ""]) = Ok (FEErrors SWalk [((1, 10)%Z, (0, 0)%Z)])
+  /\ front_end (j5s_walk R) true (c07_src ["objec Foo {"; "}"; ""]) = Ok (FEErrors SWalk [((0, 0)%Z, (0, 4)%Z)])
+  /\ front_end (j5s_walk R) true (c07_src ["x = #"; ""]) = Ok (FEErrors SParse [((0, 4)%Z, (0, 4)%Z)]).
+Proof. cbv zeta. repeat split; vm_compute; reflexivity. Qed.
